@@ -22,7 +22,7 @@ LIB_MODULES = ('file_builder.file_builder', 'file_builder.cache', 'file_builder.
 
 MUTATING = {'mkdir', 'makedirs', 'rename', 'replace', 'rmdir', 'remove', 'gzip.open:w', 'rmtree', 'mkdtemp'}
 # calls "to create directories, move files aside or write the cache" (C14's fault space)
-FAULTABLE = {'mkdir', 'makedirs', 'rename', 'gzip.open:w', 'gzip.write'}
+FAULTABLE = {'mkdir', 'makedirs', 'rename', 'replace', 'gzip.open:w', 'gzip.write'}      # replace: a move-aside since repair D29
 READING = {'listdir', 'stat', 'isfile', 'isdir', 'exists', 'getsize', 'islink', 'open:r', 'gzip.open:r'}
 
 
